@@ -416,3 +416,77 @@ func (f *File) PrevCode(i int) int {
 	}
 	return -1
 }
+
+// ReachProblems explores every control path of a section from the given start
+// lines, taking both outcomes of every conditional jump (so the result holds
+// for every game state), and reports where execution can leave the section
+// other than by return/end/a jump to a label outside it.
+func (f *File) ReachProblems(sec Section, starts []int, userTargets map[string]bool) (problems []string, reached int) {
+	seen := map[int]bool{}
+	work := append([]int{}, starts...)
+	target := func(lbl string) (int, bool) {
+		for _, d := range f.Labels[lbl] {
+			if d >= sec.Start && d < sec.End {
+				return d, true
+			}
+		}
+		return 0, false
+	}
+	for len(work) > 0 {
+		pc := work[len(work)-1]
+		work = work[:len(work)-1]
+		for {
+			if pc >= sec.End {
+				if pc >= len(f.Lines) {
+					problems = append(problems, "a path falls off the end of the file")
+				} else {
+					problems = append(problems, fmt.Sprintf("a path falls through into %q (line %d)", f.Lines[pc].Text, pc+1))
+				}
+				break
+			}
+			if seen[pc] {
+				break
+			}
+			seen[pc] = true
+			l := &f.Lines[pc]
+			if l.Kind != KInstr {
+				pc++
+				continue
+			}
+			reached++
+			if l.IsData() {
+				problems = append(problems, fmt.Sprintf("a path reaches data directive %q (line %d)", l.Text, pc+1))
+				break
+			}
+			if (l.Op == "return" || l.Op == "end") && l.Args == "" {
+				break
+			}
+			var lbl string
+			cond := false
+			switch l.Op {
+			case "goto":
+				lbl = l.Args
+			case "goto_if_set", "goto_if_unset", "goto_if", "case":
+				_, lbl = SplitLast(l.Args)
+				cond = true
+			case "goto_if_eq", "goto_if_ne", "goto_if_lt", "goto_if_le", "goto_if_gt", "goto_if_ge":
+				lbl = l.Args
+				cond = true
+			}
+			if lbl == "" {
+				pc++
+				continue
+			}
+			if t, ok := target(lbl); ok {
+				work = append(work, t)
+			} else if cond && !userTargets[lbl] {
+				problems = append(problems, fmt.Sprintf("line %d: %s targets %q, which is not a label of this script", pc+1, l.Op, lbl))
+			}
+			if !cond {
+				break
+			}
+			pc++
+		}
+	}
+	return problems, reached
+}
